@@ -2,12 +2,23 @@ module verif/harness
 
 go 1.22.0
 
-require git.defalsify.org/vise.git v0.0.0
+require (
+	git.defalsify.org/vise.git v0.0.0
+	github.com/jackc/pgx/v5 v5.7.0
+)
 
 require (
 	github.com/alecthomas/participle/v2 v2.0.0 // indirect
 	github.com/barbashov/iso639-3 v0.0.0-20211020172741-1f4ffb2d8d1c // indirect
+	github.com/fxamacker/cbor/v2 v2.4.0 // indirect
+	github.com/jackc/pgpassfile v1.0.0 // indirect
+	github.com/jackc/pgservicefile v0.0.0-20240606120523-5a60cdf6a761 // indirect
+	github.com/jackc/puddle/v2 v2.2.1 // indirect
 	github.com/mattn/kinako v0.0.0-20170717041458-332c0a7e205a // indirect
+	github.com/x448/float16 v0.8.4 // indirect
+	golang.org/x/crypto v0.27.0 // indirect
+	golang.org/x/sync v0.8.0 // indirect
+	golang.org/x/text v0.18.0 // indirect
 	gopkg.in/leonelquinteros/gotext.v1 v1.3.1 // indirect
 )
 
